@@ -46,9 +46,26 @@ def run(chk):
         d = rng.choice([2, 3, 3, 4, 5])
         ev = [rng.choice([-1.0, 0.0, 0.0, 0.5, 1.0, 1.0, 2.0]) for _ in range(d)]
         V = haar(rng, d) if rng.random() < 0.6 else structured(rng, d)
+        shape = "generic"
+        if it % 10 in (3, 6, 9):
+            # strata: a basis only slightly tilted away from the eigenbasis (rotation angle 1e-2 .. 1e-5), a large multiple of the
+            # identity on top of the operator, a tiny off-diagonal element on a diagonal operator
+            shape = {3: "slightly-tilted", 6: "identity-offset", 9: "tiny-off-diagonal"}[it % 10]
+            if len(set(ev)) == 1:
+                ev[0] += 1.0
+            if shape == "slightly-tilted":
+                g_ = np.array([[rng.gauss(0, 1) + 1j * rng.gauss(0, 1) for _ in range(d)] for _ in range(d)])
+                from scipy.linalg import expm as _expm
+                V = _expm(1j * rng.choice([1e-2, 1e-3, 1e-4, 1e-5]) * (g_ + g_.conj().T) / 2)
+            elif shape == "identity-offset":
+                ev = [x + rng.choice([150.0, -40.0, 1e4]) for x in ev]
+            else:
+                V = np.eye(d, dtype=complex)
         O = V @ np.diag(ev) @ V.conj().T
+        if shape == "tiny-off-diagonal":
+            O[0, d - 1] += rng.choice([1e-3, 1e-6]) * (1 + 0.5j)
         O = (O + O.conj().T) / 2
-        info = {"kind": "bath", "d": d, "eigenvalues": ev}
+        info = {"kind": "bath", "d": d, "eigenvalues": ev, "shape": shape}
         chk.search_cases += 1
         chk.count("bath_d%d" % d)
         chk.case(info, ("bath", d, tuple(sorted(ev)), it % 3))
@@ -60,7 +77,8 @@ def run(chk):
         u, w = b.unitary_transform, b.coupling_operator
         dev_u = np.abs(u.conj().T @ u - np.eye(d)).max()
         dev_r = np.abs(u @ w @ u.conj().T - O).max()
-        if dev_u > 1e-10 or dev_r > 1e-10 or np.abs(np.diag(w).imag).max() > 1e-10 or np.abs(w - np.diag(np.diag(w))).max() > 1e-10:
+        scale_ = max(1.0, np.abs(O).max())
+        if dev_u > 1e-10 or dev_r > 1e-10 * scale_ or np.abs(np.diag(w).imag).max() > 1e-10 * scale_ or np.abs(w - np.diag(np.diag(w))).max() > 1e-10 * scale_:
             chk.fail("transform-not-unitary", f"Bath.unitary_transform: |U^+U-1|={dev_u:.2e}, reconstruction error {dev_r:.2e} for eigenvalues {ev}", info)
 
     # ---- (c) covariance through the public methods ------------------------------------------------
